@@ -32,7 +32,7 @@ VERIF = os.path.dirname(os.path.abspath(__file__))
 LEAN = os.path.join(VERIF, "lean")
 HARNESS = os.path.join(VERIF, "harness")
 CACHE = os.path.join(VERIF, ".cache")
-REPO = "/repo"
+REPO = os.environ.get("VERIF_REPO", "/repo")  # experiments only: another checkout (a seeded worktree)
 DRIVER = os.path.join(LEAN, ".lake", "build", "bin", "ohdriver")
 HARNESS_BIN = os.path.join(CACHE, "harness-target", "release", "ohharness")
 ALLOWED_AXIOMS = {"propext", "Classical.choice", "Quot.sound"}
@@ -216,7 +216,30 @@ def proof_side(pid, thorough):
 # code side
 
 
+def shadow_harness():
+    """VERIF_REPO=<other checkout>: build a copy of the harness whose path dependencies point there
+    (used to try seeded changes without touching /repo while other work depends on it)"""
+    global HARNESS, HARNESS_BIN
+    tag = hashlib.blake2b(REPO.encode(), digest_size=6).hexdigest()
+    sh = os.path.join(CACHE, "shadow", tag)
+    os.makedirs(sh, exist_ok=True)
+    run(["rsync", "-a", "--delete", "--exclude", "target", HARNESS + "/", os.path.join(sh, "harness") + "/"])
+    for root, _, names in os.walk(os.path.join(sh, "harness")):
+        for nm in names:
+            if nm.endswith((".rs", ".toml")):
+                fp = os.path.join(root, nm)
+                t = open(fp, encoding="utf-8").read()
+                t2 = t.replace('"/repo', '"' + REPO).replace('target-dir = "../.cache/harness-target"', 'target-dir = "../target"')
+                if t2 != t:
+                    open(fp, "w", encoding="utf-8").write(t2)
+    run(["cp", os.path.join(REPO, "Cargo.lock"), os.path.join(sh, "harness", "Cargo.lock")])
+    HARNESS = os.path.join(sh, "harness")
+    HARNESS_BIN = os.path.join(sh, "target", "release", "ohharness")
+
+
 def build_harness():
+    if REPO != "/repo":
+        shadow_harness()
     p = run(["cargo", "build", "--release", "--offline"], cwd=HARNESS, timeout=3600)
     return p.returncode == 0, p.stdout[-4000:]
 
